@@ -5,6 +5,7 @@ mod compute_engine;
 mod codec_engine;
 mod import_engine;
 mod lazy_engine;
+mod read_paths;
 
 fn main() {
     let args = common::Args(std::env::args().skip(1).collect());
